@@ -1,5 +1,7 @@
 package twig
 
+import "runtime"
+
 // C14 through the public API only: padding a template with literal text beyond the engine's
 // internal size threshold changes the output by exactly that text.
 
@@ -35,4 +37,55 @@ func VH_C14_Threshold() {
 			}
 		}
 	}
+}
+
+// ---- C14.tokens: the number of tags in a template does not change what the rest of it means -----------
+
+func vhRepeatStr(s string, n int) string {
+	out := ""
+	for i := 0; i < n; i++ {
+		out += s
+	}
+	return out
+}
+
+// VH_C14_Tokens: a construct with whitespace-control dashes (5 of the C13 constructs, every dash
+// subset, whitespace on both sides of every text piece) is rendered alone and with k tags in front
+// and m tags behind that contribute nothing (comments, or prints of an undefined variable); k ranges
+// over PADLO..PADLO+PADN-1 (around the sizes at which internal token storage grows), m over {0, PADAFTER}.
+// The padded template renders exactly as the unpadded one.
+func VH_C14_Tokens() {
+	tp := []vhTpl{vhC13Corpus[0], vhC13Corpus[1], vhC13Corpus[4], vhC13Corpus[6], vhC13Corpus[16]}[symChoice(5)]
+	nt := len(tp.tags)
+	dl := make([]bool, nt)
+	dr := make([]bool, nt)
+	for i := range tp.tags {
+		dl[i], dr[i] = symBool(), symBool()
+	}
+	wls := make([]string, nt+1)
+	wrs := make([]string, nt+1)
+	for i := 0; i <= nt; i++ {
+		wls[i], wrs[i] = " \n", "\t "
+	}
+	src, _ := vhC13Build(tp, dl, dr, wls, wrs)
+	k := symParam("PADLO", 83) + symChoice(symParam("PADN", 5))
+	m := 0
+	if symBool() {
+		m = symParam("PADAFTER", 100)
+	}
+	unit := "{# c #}"
+	if symBool() {
+		unit = "{{ zz }}"
+	}
+	symTag("tpl:" + tp.name)
+	ctx := map[string]interface{}{"x": "V", "n": 0, "xs": []interface{}{"p", "q"}}
+	// pooled tokenizers keep the token storage earlier templates made them grow: start from empty pools
+	runtime.GC()
+	runtime.GC()
+	o0, e0 := vhRenderFresh(src, ctx)
+	o1, e1 := vhRenderFresh(vhRepeatStr(unit, k)+src+vhRepeatStr(unit, m), ctx)
+	symCover("rendered")
+	symAssert(e0 == nil, "renders")
+	symAssert((e0 == nil) == (e1 == nil), "padding-keeps-acceptance")
+	symAssert(o1 == o0, "padding-with-tags-changes-nothing")
 }
